@@ -35,7 +35,21 @@ CLAIMED = [
 PENDING = {
 }
 
+def load_fragments():
+    d = os.path.join(VERIF, 'bin', 'manifest.d')
+    out = []
+    for f in sorted(os.listdir(d)):
+        if f.endswith('.json'):
+            out.append(json.load(open(os.path.join(d, f))))
+    return out
+
+
 def main():
+    frags = load_fragments()
+    have = {c['property_id'] for c in CLAIMED}
+    for fr in frags:
+        if fr['property_id'] not in have:
+            CLAIMED.append(fr)
     props = [json.loads(l) for l in open(os.path.join(VERIF, 'properties.jsonl'))]
     claimed = {c['property_id'] for c in CLAIMED}
     na = []
